@@ -106,11 +106,16 @@ Section Renumber.
   Definition upd_ren (a : nat) (g : nat) (ren : nat -> bool) : nat -> bool :=
     fun x => if (a <=? x) && (x <? n) && Nat.eqb (lab0 x) g then true else ren x.
 
+  (* the list arrays the loop reads: any arrays that agree with the true lists of lab0 *)
+  Variables f0 nx0 : arr.
+  Hypothesis Hf0 : forall g, f0 g = first_of n lab0 g.
+  Hypothesis Hnx0 : forall i, i < n -> nx0 i = next_of n lab0 i.
+
   Lemma relabel_walk_spec : forall g c m a fuel ing ren, a + m = n -> m < fuel ->
     forall x,
-    fst (relabel_walk fuel (next_of n lab0) ing ren (hdz (filter (fun j => Nat.eqb (lab0 j) g) (seq a m))) c) x
+    fst (relabel_walk fuel nx0 ing ren (hdz (filter (fun j => Nat.eqb (lab0 j) g) (seq a m))) c) x
       = upd_class a g c ing x /\
-    snd (relabel_walk fuel (next_of n lab0) ing ren (hdz (filter (fun j => Nat.eqb (lab0 j) g) (seq a m))) c) x
+    snd (relabel_walk fuel nx0 ing ren (hdz (filter (fun j => Nat.eqb (lab0 j) g) (seq a m))) c) x
       = upd_ren a g ren x.
   Proof.
     induction m as [|m IH]; intros a fuel ing ren Ham Hf x.
@@ -124,7 +129,7 @@ Section Renumber.
       destruct (Nat.eqb (lab0 a) g) eqn:Ea.
       + cbn [hdz relabel_walk].
         assert (Hne : (Z.of_nat a =? -1)%Z = false) by (apply Z.eqb_neq; lia).
-        rewrite Hne. unfold aget. rewrite Nat2Z.id.
+        rewrite Hne. unfold aget. rewrite Nat2Z.id, Hnx0 by lia.
         assert (Hnext : next_of n lab0 a = hdz (filter (fun j => Nat.eqb (lab0 j) g) (seq (S a) m))).
         { unfold next_of. apply Nat.eqb_eq in Ea. rewrite Ea. replace (n - S a) with m by lia. reflexivity. }
         rewrite Hnext.
@@ -173,18 +178,20 @@ Section Renumber.
       apply (A3 j); [lia|exact Hjl].
   Qed.
 
-  Lemma renumber_loop_spec : forall m i ing ren c, i + m = n -> rinv i ing ren c ->
-    forall x, x < n ->
-    fst (renumber_loop (S n) (first_of n lab0) (next_of n lab0) (seq i m) ing ren c) x = Z.of_nat (cn x).
+  (* the loop establishes rinv n: stated with an arbitrary postcondition Q of the returned (ingroup, iclump) *)
+  Lemma renumber_loop_post : forall (Q : arr * Z -> Prop),
+    (forall ing ren c, rinv n ing ren c -> Q (ing, c)) ->
+    forall m i ing ren c, i + m = n -> rinv i ing ren c ->
+    Q (renumber_loop (S n) f0 nx0 (seq i m) ing ren c).
   Proof.
-    induction m as [|m IH]; intros i ing ren c Him [Hc Hinv] x Hx.
-    - simpl. destruct (Hinv x Hx) as [H1 [H2 _]]. apply H2. apply H1.
-      destruct (fidx_spec x Hx). lia.
+    intros Q HQ.
+    induction m as [|m IH]; intros i ing ren c Him [Hc Hinv].
+    - simpl. apply (HQ ing ren c). replace n with i by lia. split; assumption.
     - change (seq i (S m)) with (i :: seq (S i) m). cbn [renumber_loop].
       assert (Hi : i < n) by lia.
       destruct (ren i) eqn:Eri.
       + (* i already renumbered: it is not the first of its class *)
-        apply (IH (S i)); [lia| |exact Hx].
+        apply (IH (S i)); [lia|].
         assert (Hfi : fidx i < i) by (apply (Hinv i Hi); exact Eri).
         assert (Hnf : isf i = false).
         { destruct (isf i) eqn:E; [|reflexivity]. apply isf_iff in E; [lia|exact Hi]. }
@@ -198,15 +205,15 @@ Section Renumber.
           destruct (Nat.eq_dec (fidx i) i); [assumption|]. exfalso.
           assert (ren i = true) by (apply H1; lia). congruence. }
         assert (Hing : ing i = Z.of_nat (lab0 i)) by (apply (Hinv i Hi); exact Eri).
-        unfold aget at 1. rewrite Hing, Nat2Z.id, (first_of_first i Hi Hfi).
+        unfold aget at 1. rewrite Hing, Nat2Z.id, Hf0, (first_of_first i Hi Hfi).
         assert (Hhd : Z.of_nat i = hdz (filter (fun j => Nat.eqb (lab0 j) (lab0 i)) (seq i (S m)))).
         { change (seq i (S m)) with (i :: seq (S i) m). cbn [filter]. rewrite Nat.eqb_refl. reflexivity. }
         rewrite Hhd.
         pose proof (relabel_walk_spec (lab0 i) c (S m) i (S n) ing ren Him ltac:(lia)) as Hw.
-        destruct (relabel_walk (S n) (next_of n lab0) ing ren
+        destruct (relabel_walk (S n) nx0 ing ren
                     (hdz (filter (fun j => Nat.eqb (lab0 j) (lab0 i)) (seq i (S m)))) c) as [ing' ren'] eqn:Ew.
         cbn [fst snd] in Hw.
-        apply (IH (S i)); [lia| |exact Hx].
+        apply (IH (S i)); [lia|].
         assert (Hisf : isf i = true) by (apply isf_iff; assumption).
         split; [rewrite nfirst_S, Hisf, Hc; lia|].
         intros y Hy. destruct (Hw y) as [Hy1 Hy2]. rewrite Hy1, Hy2. unfold upd_class, upd_ren.
@@ -223,6 +230,24 @@ Section Renumber.
           rewrite H1. split; [lia|]. intro H. destruct (Nat.eq_dec (fidx y) i) as [He|]; [|lia].
           exfalso. apply Nat.eqb_neq in Eyl. apply Eyl.
           destruct (fidx_spec y Hy) as [_ [A2 _]]. rewrite <- A2, He. reflexivity.
+  Qed.
+
+  Lemma renumber_loop_spec : forall m i ing ren c, i + m = n -> rinv i ing ren c ->
+    forall x, x < n ->
+    fst (renumber_loop (S n) f0 nx0 (seq i m) ing ren c) x = Z.of_nat (cn x).
+  Proof.
+    intros m i ing ren c Him Hr x Hx.
+    apply (renumber_loop_post (fun r => fst r x = Z.of_nat (cn x))); [|exact Him|exact Hr].
+    intros ing' ren' c' [Hc Hinv]. cbn [fst]. destruct (Hinv x Hx) as [H1 [H2 _]]. apply H2. apply H1.
+    destruct (fidx_spec x Hx). lia.
+  Qed.
+
+  Lemma renumber_loop_count : forall m i ing ren c, i + m = n -> rinv i ing ren c ->
+    snd (renumber_loop (S n) f0 nx0 (seq i m) ing ren c) = Z.of_nat (nfirst n).
+  Proof.
+    intros m i ing ren c Him Hr.
+    apply (renumber_loop_post (fun r => snd r = Z.of_nat (nfirst n))); [|exact Him|exact Hr].
+    intros ing' ren' c' [Hc _]. exact Hc.
   Qed.
 
   (* ------------------------------------------------------------ list rebuild *)
@@ -278,20 +303,22 @@ Section Renumber.
 End Renumber.
 
 (* ------------------------------------------------------------ the tail of spheregroup() *)
-Theorem renumber_refines : forall n lab0,
-  renumber_model n (fun i => Z.of_nat (lab0 i)) (first_of n lab0) (next_of n lab0)
-                 (length (filter (isfirst n lab0) (seq 0 n)))
+Theorem renumber_refines_gen : forall n lab0 ing0 f0 nx0 K,
+  (forall i, i < n -> ing0 i = Z.of_nat (lab0 i)) ->
+  (forall g, f0 g = first_of n lab0 g) ->
+  (forall i, i < n -> nx0 i = next_of n lab0 i) ->
+  length (filter (isfirst n lab0) (seq 0 n)) <= K ->
+  renumber_model n ing0 f0 nx0 K
   = (map (fun i => Z.of_nat (canon n lab0 i)) (seq 0 n), lists_of n (canon n lab0)).
 Proof.
-  intros n lab0. unfold renumber_model.
-  destruct (renumber_loop (S n) (first_of n lab0) (next_of n lab0) (seq 0 n)
-              (fun i => Z.of_nat (lab0 i)) (fun _ => false) 0%Z) as [ing c] eqn:El.
+  intros n lab0 ing0 f0 nx0 K Hi0 Hf0 Hnx0 HK. unfold renumber_model.
+  destruct (renumber_loop (S n) f0 nx0 (seq 0 n) ing0 (fun _ => false) 0%Z) as [ing c] eqn:El.
   assert (Hing : forall x, x < n -> ing x = Z.of_nat (canon n lab0 x)).
-  { intros x Hx. pose proof (renumber_loop_spec n lab0 n 0 (fun i => Z.of_nat (lab0 i)) (fun _ => false) 0%Z) as H.
+  { intros x Hx. pose proof (renumber_loop_spec n lab0 f0 nx0 Hf0 Hnx0 n 0 ing0 (fun _ => false) 0%Z) as H.
     rewrite El in H. apply H; [lia| |exact Hx].
-    split; [reflexivity|]. intros y Hy. split; [split; [discriminate|lia]|]. split; [discriminate|reflexivity]. }
-  pose proof (build_lists_spec n (canon n lab0) n (const (-1)%Z) (next_of n lab0) ing (le_n n) Hing) as Hb.
-  destruct (build_lists (rev (seq 0 n)) ing (const (-1)%Z) (next_of n lab0)) as [first next] eqn:Eb.
+    split; [reflexivity|]. intros y Hy. split; [split; [discriminate|lia]|]. split; [discriminate|intros _; apply Hi0; exact Hy]. }
+  pose proof (build_lists_spec n (canon n lab0) n (const (-1)%Z) nx0 ing (le_n n) Hing) as Hb.
+  destruct (build_lists (rev (seq 0 n)) ing (const (-1)%Z) nx0) as [first next] eqn:Eb.
   destruct Hb as [Hf Hn].
   { intro g. rewrite Nat.sub_diag. reflexivity. }
   { intros i Hi. lia. }
@@ -299,13 +326,45 @@ Proof.
   unfold lists_of, tolist. f_equal; [|f_equal; [f_equal|]].
   - apply map_ext_in. intros x Hx. apply in_seq in Hx. apply Hing. lia.
   - apply map_ext_in. intros g Hg. apply in_seq in Hg. unfold mult_loop.
-    fold (nfirst n lab0 n).
-    destruct (g <? nfirst n lab0 n) eqn:Eg.
+    fold (nfirst n lab0 n) in HK.
+    destruct (g <? K) eqn:Eg.
     + rewrite Hf. unfold first_of, members.
       rewrite (count_walk_filter n (canon n lab0) next Hn g n 0 (S n) 0%Z) by lia. reflexivity.
     + apply Nat.ltb_ge in Eg. symmetry.
-      apply (beyond_groups n (canon n lab0) (nfirst n lab0 n) g); [|exact Eg].
+      apply (beyond_groups n (canon n lab0) (nfirst n lab0 n) g); [|lia].
       intros i Hi. apply canon_lt_total. exact Hi.
   - apply map_ext_in. intros g Hg. apply Hf.
   - apply map_ext_in. intros i Hi. apply in_seq in Hi. apply Hn. lia.
+Qed.
+
+Theorem renumber_refines : forall n lab0,
+  renumber_model n (fun i => Z.of_nat (lab0 i)) (first_of n lab0) (next_of n lab0)
+                 (length (filter (isfirst n lab0) (seq 0 n)))
+  = (map (fun i => Z.of_nat (canon n lab0 i)) (seq 0 n), lists_of n (canon n lab0)).
+Proof. intros. apply renumber_refines_gen; auto. Qed.
+
+Lemma NoDup_map_inj_in : forall (f : nat -> nat) l,
+  (forall x y, In x l -> In y l -> f x = f y -> x = y) -> NoDup l -> NoDup (map f l).
+Proof.
+  induction l as [|a r IH]; intros Hinj Hnd; simpl; [constructor|].
+  inversion Hnd; subst. constructor.
+  - intro Hin. apply in_map_iff in Hin. destruct Hin as [x [Hx Hxr]].
+    assert (x = a) by (apply Hinj; [right; exact Hxr|left; reflexivity|exact Hx]). subst x. contradiction.
+  - apply IH; [|assumption]. intros x y Hx Hy. apply Hinj; right; assumption.
+Qed.
+
+(* distinct groups have distinct labels: there are at most as many groups as label values *)
+Lemma nfirst_le_bound : forall n lab0 K, (forall i, i < n -> lab0 i < K) ->
+  length (filter (isfirst n lab0) (seq 0 n)) <= K.
+Proof.
+  intros n lab0 K HK.
+  rewrite <- (map_length lab0), <- (seq_length K 0).
+  apply NoDup_incl_length.
+  - apply NoDup_map_inj_in; [|apply NoDup_filter; apply seq_NoDup].
+    intros x y Hx Hy Hxy. apply filter_In in Hx. apply filter_In in Hy.
+    destruct Hx as [Hx Fx]. destruct Hy as [Hy Fy]. apply in_seq in Hx. apply in_seq in Hy.
+    apply isf_iff in Fx; [|lia]. apply isf_iff in Fy; [|lia].
+    rewrite <- Fx, <- Fy. apply fidx_same; [lia|lia|exact Hxy].
+  - intros v Hv. apply in_map_iff in Hv. destruct Hv as [x [<- Hx]]. apply filter_In in Hx.
+    destruct Hx as [Hx _]. apply in_seq in Hx. apply in_seq. split; [lia|]. simpl. apply HK. lia.
 Qed.
